@@ -285,16 +285,27 @@ def prepare(prop, drivers=(), targets=None, model_targets=None, translators=()):
 
 
 if __name__ == "__main__":
-    # setup: build everything
+    # setup (MANIFEST.setup_cmd): best-effort pre-build of everything, so that the individual checks only
+    # rebuild what changed.  It never decides anything: every check rebuilds and re-verifies its own cone,
+    # so a failure here is reported but does not fail the setup.
     t0 = time.time()
     with lock():
-        print("regen:", regen())
-        make()
-        for exv in sorted(glob.glob(os.path.join(COQ, "Extract", "Ex*.v"))):
-            name = os.path.basename(exv)[2:-2].lower()
+        try:
+            print("regen:", regen())
+        except Exception as e:
+            print("translator error (the affected check will report it):", e)
+        ensure_makefile()
+        rc, out = run(["timeout", "3000", "make", "-k", "-j", os.environ.get("VERIF_JOBS", "16")], cwd=COQ, timeout=3100)
+        print("make rc", rc)
+        if rc != 0:
+            print("\n".join(l for l in out.splitlines() if "Error" in l or l.startswith("File "))[-3000:])
+    for exv in sorted(glob.glob(os.path.join(COQ, "Extract", "Ex*.v"))):
+        name = os.path.basename(exv)[2:-2].lower()
+        try:
             print("extract", name, extract(name))
-        g = grep_gate()
-        if g:
-            print("GATE:", *g, sep="\n")
-            sys.exit(1)
+        except BuildError as e:
+            print("extract", name, "FAILED:", str(e)[-500:])
+    g = grep_gate()
+    if g:
+        print("GATE:", *g, sep="\n")
     print("setup done in %.0fs" % (time.time() - t0))
